@@ -187,6 +187,12 @@ def _gen_case(rng, tier, g):
     nf = 4
     table = gen_table(rng, maxrows, nfields=nf, ragged=False,
                       profile=rng.choice(['default', 'mixedkeys', 'nonone']))
+    if fn.startswith(('dict', 'record')) and rng.random() < 0.15:
+        # some rows are short (the key cells are still there); lookup() with
+        # its all-fields default value does not take such rows
+        for r_ in table[1:]:
+            if rng.random() < 0.4:
+                del r_[rng.randint(2, 3):]
     key = rng.choice(['a', 'a', ['a', 'b'], 'b', 0, ['a'], ('b',), 1,
                       [0, 1], (1,)])
     value = None
@@ -470,7 +476,10 @@ def _lookup_model(fn, table, key, value, strict, start=None):
                 vi = _indices(hdr, value)
                 v = _key(r, vi)
         elif fn.startswith('dict'):
-            v = dict((str(h), r[i]) for i, h in enumerate(hdr))
+            # (a row that is too short has None for the fields it lacks,
+            # as dicts() and the squared-up table have)
+            v = dict((str(h), r[i] if i < len(r) else None)
+                     for i, h in enumerate(hdr))
         else:
             v = tuple(r)
         if fn.endswith('one'):
